@@ -1,10 +1,15 @@
 """C07 progress.  Sequential part: every call of every history returns (watchdog on each call,
-self-deadlock detection by the single-task executor).  Concurrent part: see c07conc (added later)."""
-import seqprop
+self-deadlock detection by the single-task executor).  Concurrent part (c06.run_conc): batches of
+operations under the deterministic scheduler must all finish (no deadlock with every backend request
+completed, no step-budget overrun) and none may fail because of the others."""
+import seqprop, c06
 
 
 def run(tier, seed, replay):
-    n = 150 if tier == 'quick' else 3000
-    return seqprop.run_histories('C07', tier, seed, ('hang',), n, 30, replay=replay,
-                                 explanation='Every API call of every sequential history returns: per-call watchdog and self-deadlock detection.',
-                                 assumptions=['the backend completes every request (SimFile always does)'])
+    n = 60 if tier == 'quick' else 3000
+    rc = seqprop.run_histories('C07', tier, seed, ('hang',), n, 30, replay=replay,
+                               explanation='Every API call of every sequential history returns: per-call watchdog and self-deadlock detection.',
+                               assumptions=['the backend completes every request (SimFile always does)'])
+    if rc != 0:
+        return rc
+    return c06.run_conc('C07', tier, seed, replay, extra={'sequential_histories_all_returned': n})
